@@ -39,13 +39,16 @@
 (* "IssuerNil"} selects the unguarded behaviour (verdict "panic"); the     *)
 (* registered configurations use {} - the design the property demands -    *)
 (* and LogoutValidate_pinned.cfg shows TLC refuting Total for the pinned   *)
-(* behaviour.                                                              *)
+(* behaviour.  EveryRoleTrusted (FALSE in the registered configurations):  *)
+(* getIDPSigningCerts also collects the signing / use-less certificates of *)
+(* the entity's SPSSODescriptors and AttributeAuthorityDescriptors; TLC     *)
+(* refutes RejectsBad (LogoutValidate_everyrole.cfg).                      *)
 (*                                                                         *)
 (* The Properties section is written from the statement of C18 only.       *)
 (***************************************************************************)
 EXTENDS Integers, Sequences, FiniteSets, TLC, Json
 
-CONSTANTS Tier, Unguarded
+CONSTANTS Tier, Unguarded, EveryRoleTrusted
 
 PostEntries  == {"form", "req_post", "req_both_f"}
 RedirEntries == {"redirect", "req_get", "req_both_q"}
@@ -57,7 +60,9 @@ RootCls == {"ok", "otherelem", "otherns"}
 SigCls  == {"root", "none", "moved", "edit_dest", "edit_iss", "edit_status", "edit_time",
             "wrap_nosig", "wrap_copy", "wrap_sameid", "dup_mm", "dup_ma", "dup_am", "dup_aa",
             "junk", "emptysig"}
-KeyCls  == {"idp1", "idp2", "idpenc", "att"}
+\* role: a key the IdP's entity publishes for ANOTHER role only (its SPSSODescriptor / its
+\* AttributeAuthorityDescriptor), never in an IDPSSODescriptor
+KeyCls  == {"idp1", "idp2", "idpenc", "att", "role"}
 KiCls   == {"cert", "none", "rsakv", "othercert"}
 DestCls == {"eq", "wrong", "case", "slash", "query", "prefix", "suffix", "empty", "absent"}
 IssCls  == {"eq", "wrong", "case", "slash", "prefix", "suffix", "empty", "absent"}
@@ -82,14 +87,19 @@ vars == <<cfg, in, pc, cur, path, doc, roots, sel, cert, verdict, step>>
 (* sp.IDPMetadata in order (use, certificates by key name); mdnil: no       *)
 (* IDPMetadata at all; pin: IDPCertificate; fp/alg: IDPCertificateFinger-   *)
 (* print of that key's certificate / IDPCertificateFingerprintAlgorithm.    *)
+(* md is what the IDPSSODescriptor carries; oth: the KeyDescriptors of the  *)
+(* OTHER role descriptors of the same EntityDescriptor, in document order   *)
+(* (role "sp" = SPSSODescriptor, "aa" = AttributeAuthorityDescriptor).      *)
 
 KD(use, certs) == [use |-> use, certs |-> certs]
 MdOne   == << KD("signing", <<"idp1">>) >>
 MdTwo   == << KD("signing", <<"idp1">>), KD("", <<"idp2">>), KD("encryption", <<"idpenc">>) >>
 MdOther == << KD("signing", <<"idp2">>) >>
-TC0 == [mdnil |-> FALSE, md |-> << >>, pin |-> "none", fp |-> "none", alg |-> "none"]
+RKD(role, use, certs) == [role |-> role, use |-> use, certs |-> certs]
+TC0 == [mdnil |-> FALSE, md |-> << >>, oth |-> << >>, pin |-> "none", fp |-> "none", alg |-> "none"]
 
 TrustCls == {"one", "two", "unspec", "multi", "enconly", "encsig", "other", "nokeys",
+             "role_sp", "role_aa", "role_only",
              "pin", "pin_same", "pin_other", "pin_two", "pin2_one", "pin_nomd",
              "fp", "fp_same", "fp_other", "fp512_two", "fp2_one",
              "fp_badalg", "fp_noalg", "pin_fp"}
@@ -102,6 +112,13 @@ TrustOf(t) ==
     [] t = "encsig"    -> [TC0 EXCEPT !.md = << KD("encryption", <<"idp1">>), KD("signing", <<"idp2">>) >>]
     [] t = "other"     -> [TC0 EXCEPT !.md = MdOther]
     [] t = "nokeys"    -> TC0
+    \* the entity declares further roles, each with keys of its own
+    [] t = "role_sp"   -> [TC0 EXCEPT !.md = MdOne,
+                                      !.oth = << RKD("sp", "signing", <<"role">>), RKD("sp", "encryption", <<"idpenc">>) >>]
+    [] t = "role_aa"   -> [TC0 EXCEPT !.md = << KD("", <<"idp1">>) >>, !.oth = << RKD("aa", "", <<"role">>) >>]
+    \* ... and the IDPSSODescriptor offers nothing for signing
+    [] t = "role_only" -> [TC0 EXCEPT !.md = << KD("encryption", <<"idpenc">>) >>,
+                                      !.oth = << RKD("sp", "signing", <<"role">>), RKD("aa", "", <<"idp2">>) >>]
     \* pinned certificate x what the metadata lists at the same time
     [] t = "pin"       -> [TC0 EXCEPT !.pin = "idp1"]
     [] t = "pin_same"  -> [TC0 EXCEPT !.pin = "idp1", !.md = MdOne]
@@ -179,7 +196,7 @@ Both == {"form", "redirect"}
 \* thorough: pairs through every entry point and triples over the deciding fields.
 Q == Tier = "q"
 \* configurations where the metadata lists a key the configuration does not trust, or several
-TrustMain == {"multi", "encsig", "pin_other", "pin_two", "pin2_one", "fp_other", "fp512_two"}
+TrustMain == {"multi", "encsig", "role_sp", "pin_other", "pin_two", "pin2_one", "fp_other", "fp512_two"}
 \* metadata-only trust with one / several certificates x deviations        (x Mids)
 F1 == WithEntry(WithTrust(IF Q THEN Singles(Base) ELSE Singles(Base) \cup Pairs(Base), Old2), Entries)
 F2 == WithEntry(WithTrust(IF Q THEN Pairs(Base) ELSE Triples(Base), Old2), Both)
@@ -298,8 +315,10 @@ SigFind == /\ pc = "SigFind" /\ Keep
               ELSE IF Cardinality(DirectSigs) > 1 THEN Reject("SigDup")
               ELSE Goto("Roots")
 \* getIDPSigningCerts :385 every certificate of the key descriptors whose use is
-\* "signing" or missing; none at all is an error
-MdSigningCerts(t) == UNION { SeqRange(t.md[i].certs) : i \in { j \in DOMAIN t.md : t.md[j].use \in {"", "signing"} } }
+\* "signing" or missing, of the IDPSSODescriptors ONLY (the key descriptors of the
+\* entity's other role descriptors are not read); none at all is an error
+SigningCertsOf(q) == UNION { SeqRange(q[i].certs) : i \in { j \in DOMAIN q : q[j].use \in {"", "signing"} } }
+MdSigningCerts(t) == SigningCertsOf(t.md) \cup (IF EveryRoleTrusted THEN SigningCertsOf(t.oth) ELSE {})
 \* validateSignature :1291-1313 the trust roots: three branches, each needs IDPMetadata,
 \*   neither fingerprint setting nor pinned certificate -> the metadata signing certificates
 \*   fingerprint and algorithm, no pinned certificate   -> getCertBasedOnFingerprint :428:
@@ -396,8 +415,11 @@ Done == pc = "done"
 \* "a trusted IdP certificate": what this ServiceProvider is configured to trust -
 \*   a pinned IDPCertificate        => that certificate and no other, whatever the metadata lists
 \*   else a certificate fingerprint => only a certificate with that fingerprint
-\*   else the IdP's metadata        => the certificates it offers for signing: key descriptors
-\*                                     with use "signing" or without a use (both uses)
+\*   else the IdP's metadata        => the certificates it offers for signing AS AN IdP: key
+\*                                     descriptors of its IDPSSODescriptor with use "signing" or
+\*                                     without a use (both uses).  A key the entity publishes
+\*                                     for another role (T.oth: SPSSODescriptor, Attribute-
+\*                                     AuthorityDescriptor) is not an IdP certificate.
 T == TrustOf(cfg.trust)
 OfferedForSigning(k) == \E i \in DOMAIN T.md : /\ T.md[i].use # "encryption"
                                                /\ \E j \in DOMAIN T.md[i].certs : T.md[i].certs[j] = k
